@@ -23,6 +23,17 @@ import (
 	"google.golang.org/protobuf/proto"
 )
 
+// LoopbackIP returns a loopback address that is specific to this process and
+// shard (all of 127/8 is local on Linux). Thousands of short connections per
+// process leave their ports in TIME_WAIT; with every shard on 127.0.0.1 the
+// ephemeral ports of that one address run out under the thorough tier ("bind:
+// address already in use"), which is an artefact of the harness, not of the code
+// under test.
+func LoopbackIP() string {
+	shard, _ := Shard()
+	return fmt.Sprintf("127.%d.%d.1", 1+os.Getpid()%250, 1+shard%250)
+}
+
 func goid() int64 {
 	var buf [64]byte
 	n := runtime.Stack(buf[:], false)
@@ -127,7 +138,7 @@ func NewRig(w *World, cfg RigConfig) *Rig {
 		r.Addr = filepath.Join(r.sockDir, "l.sock")
 		base, err = net.Listen("unix", r.Addr)
 	} else {
-		base, err = net.Listen("tcp", "127.0.0.1:0")
+		base, err = net.Listen("tcp", LoopbackIP()+":0")
 		if err == nil {
 			r.Addr = base.Addr().String()
 		}
